@@ -72,7 +72,7 @@ def job(j):
         for opt in ("default", "fast"):   # fastOptimizer keeps re-assigned variables: names move between qubits
             try:
                 qf = qlassf(src, bool_optimizer=optimizer(opt))
-                if type(qf).__name__ == "UnboundQlassf" or qf.circuit().num_qubits > (6 if opt == "default" else 7):
+                if type(qf).__name__ == "UnboundQlassf" or qf.circuit().num_qubits > j.get("maxq", 6 if opt == "default" else 7):
                     continue
                 qc = qf.circuit()
             except Exception:
@@ -107,7 +107,14 @@ def run(pid):
         gen = [s["src"] for s in progs.corpus("C13", t, seed()) if s["origin"].startswith(("TemplGen", "ProgGen-lean")) and s["src"].count("\n") >= 3]
         rng.shuffle(gen)
         srcs += gen[:120 if quick else 1200]
-        jobs = [{"strings": strs[k:k + 25]} for k in range(0, len(strs), 25)] + [{"srcs": srcs[k:k + 6]} for k in range(0, len(srcs), 6)]
+        # qubit names that differ only in characters a target language does not allow in identifiers (a.0 / a_0 / a_0.0)
+        names = ["def f(a: Tuple[Qint[2], Qint[2]], a_0: Qint[2]) -> bool:\n    return a[0] == a_0 and a[1] != a_0",
+                 "def f(a: Tuple[Tuple[bool, bool], bool], a_0: Tuple[bool, bool]) -> bool:\n    return (a[0][0] and a_0[0]) ^ (a[0][1] and a_0[1]) ^ a[1]",
+                 "def f(a: Tuple[bool, bool], a_0: bool) -> bool:\n    return (a[0] and a_0) ^ a[1]",
+                 "def f(a: Qint[2], a_0: bool, a_1: bool) -> bool:\n    return (a[0] and a_1) ^ (a[1] and a_0)",
+                 "def f(a: Tuple[Qint[2], bool], a_0: Qint[2]) -> Qint[2]:\n    return a[0] ^ a_0 if a[1] else a_0",
+                 "def f(a_0: bool, a: Tuple[bool, bool]) -> Tuple[bool, bool]:\n    return (a[0] ^ a_0, a[1] and a_0)"]
+        jobs = [{"strings": strs[k:k + 25]} for k in range(0, len(strs), 25)] + [{"srcs": srcs[k:k + 6]} for k in range(0, len(srcs), 6)] + [{"srcs": [x], "maxq": 10} for x in names]
         cases = [c for r in run_jobs(job, jobs) for c in r]
         for k, c in enumerate(cases):
             c["id"] = k
